@@ -61,6 +61,51 @@ func mapCopyLoops(fn *ssa.Function, M ssa.Value) []copyLoop {
 	return out
 }
 
+// innerMapOf resolves the map operand of an update/lookup to the struct-field map it belongs to. It returns the field-map
+// value and whether m is an INNER map of it (an element of a map-of-maps field): m may be the field map itself, a Lookup /
+// comma-ok Lookup on it, a fresh map that is also stored into it, or a phi of such values for one and the same field map.
+func innerMapOf(m ssa.Value, depth int) (field ssa.Value, inner bool, ok bool) {
+	if depth > 4 || m == nil {
+		return nil, false, false
+	}
+	switch x := m.(type) {
+	case *ssa.Lookup:
+		return x.X, true, true
+	case *ssa.Extract:
+		if lk, isLk := x.Tuple.(*ssa.Lookup); isLk && x.Index == 0 {
+			return lk.X, true, true
+		}
+	case *ssa.MakeMap:
+		// a fresh inner map: it must be put into a field map
+		for _, r := range *x.Referrers() {
+			if mu, isMu := r.(*ssa.MapUpdate); isMu && mu.Value == ssa.Value(x) {
+				return mu.Map, true, true
+			}
+		}
+	case *ssa.Phi:
+		var f ssa.Value
+		for _, e := range x.Edges {
+			f2, in2, ok2 := innerMapOf(e, depth+1)
+			if !ok2 || !in2 || (f != nil && !sameFieldLoad(f, f2)) {
+				return nil, false, false
+			}
+			f = f2
+		}
+		return f, true, f != nil
+	}
+	return m, false, true
+}
+
+// sameFieldLoad: two loads of the same struct field of the same base object.
+func sameFieldLoad(a, b ssa.Value) bool {
+	if a == b {
+		return true
+	}
+	oa, fa, ba := an.FieldOf(a)
+	ob, fb, bb := an.FieldOf(b)
+	return oa != nil && ob != nil && fa == fb && ba == bb
+}
+
 // OverlayRules: C18.O3 overlay-merge, C18.O4 overlay-write (also C12.O4).
 func (c *Ctx) OverlayRules(prop string) {
 	rule3 := "C18.O3 overlay-merge"
@@ -104,10 +149,7 @@ func (c *Ctx) OverlayRules(prop string) {
 			if !ok {
 				continue
 			}
-			root := mu.Map
-			if lk, ok := root.(*ssa.Lookup); ok {
-				root = lk.X
-			}
+			root, _, _ := innerMapOf(mu.Map, 0)
 			if f, ok := isFieldMap(root); ok {
 				overlay[f] = true
 				nupd++
@@ -152,10 +194,9 @@ func (c *Ctx) OverlayRules(prop string) {
 				if !ok {
 					return false
 				}
-				root := mu.Map
-				if lk, ok := root.(*ssa.Lookup); ok {
+				root, inner, _ := innerMapOf(mu.Map, 0)
+				if inner {
 					// inner map: only the account insertion counts, not the creation of the inner map
-					root = lk.X
 					f, _ := isFieldMap(root)
 					return f == want
 				}
@@ -195,10 +236,7 @@ func (c *Ctx) OverlayRules(prop string) {
 				var root ssa.Value
 				switch x := ins.(type) {
 				case *ssa.MapUpdate:
-					root = x.Map
-					if lk, ok := root.(*ssa.Lookup); ok {
-						root = lk.X
-					}
+					root, _, _ = innerMapOf(x.Map, 0)
 				case *ssa.Call:
 					if bi, ok := x.Call.Value.(*ssa.Builtin); ok && (bi.Name() == "delete" || bi.Name() == "clear") {
 						root = x.Call.Args[0]
@@ -297,21 +335,39 @@ func (c *Ctx) OverlayRules(prop string) {
 							bad = true
 							c.R.Fail(rule3, Fn(fa), c.Pos(ret), "the start-up accounts alone are returned although the overlay holds dynamically created accounts for the wallet", "start-up map only below [overlay has no entry]", an.PathString(c.Pos, path))
 						}
-					case isMakeMap(alt.v):
-						loops := mapCopyLoops(fa, alt.v)
+					case isMakeMap(alt.v) || isMergeHelperCall(alt.v):
+						mfn, mmap, msite := fa, alt.v, alt.site
+						srcOf := func(v ssa.Value) ssa.Value { return v }
+						if hc, isCall := alt.v.(*ssa.Call); isCall {
+							// a merge helper: its single return is a fresh map; its copy loops range over its parameters
+							h := hc.Call.StaticCallee()
+							rets := an.Returns(h)
+							mfn, mmap, msite = h, an.Result(rets[0], 0), rets[0]
+							srcOf = func(v ssa.Value) ssa.Value {
+								if q, ok := v.(*ssa.Parameter); ok {
+									for i, qq := range h.Params {
+										if qq == q && i < len(hc.Call.Args) {
+											return hc.Call.Args[i]
+										}
+									}
+								}
+								return v
+							}
+						}
+						loops := mapCopyLoops(mfn, mmap)
 						hasStart, hasOver := false, false
-						site := alt.site
+						site := msite
 						for _, cl := range loops {
 							cl := cl
 							// the loop must be completed on every path to the return
-							if x, _ := an.Cut(an.CutQuery{From: an.After(alt.v.(*ssa.MakeMap)), Target: func(i ssa.Instruction) bool { return i == site },
+							if x, _ := an.Cut(an.CutQuery{From: an.After(mmap.(*ssa.MakeMap)), Target: func(i ssa.Instruction) bool { return i == site },
 								AcceptEdge: func(b *ssa.BasicBlock, i int, a *an.Atom) bool { return b == cl.Header && b.Succs[i] == cl.Done }}); x != nil {
 								continue
 							}
-							if cl.Src == startVal {
+							if srcOf(cl.Src) == startVal {
 								hasStart = true
 							}
-							if cl.Src == overVal {
+							if srcOf(cl.Src) == overVal {
 								hasOver = true
 							}
 						}
@@ -358,6 +414,35 @@ func (c *Ctx) OverlayRules(prop string) {
 							}
 						}
 					}
+					// the overlay map handed to a lookup helper (which performs a Lookup on that parameter): the lock is judged here
+					if call, ok := ins.(*ssa.Call); ok && !call.Call.IsInvoke() {
+						h := call.Call.StaticCallee()
+						if h == nil || !prog.InModule(h) || h.Blocks == nil {
+							continue
+						}
+						for ai, a := range call.Call.Args {
+							f, ok := isFieldMap(a)
+							if !ok || f != fq.fld || ai >= len(h.Params) {
+								continue
+							}
+							looksUp := false
+							for _, hb := range h.Blocks {
+								for _, hi := range hb.Instrs {
+									if lk, ok := hi.(*ssa.Lookup); ok {
+										if r, _, _ := innerMapOf(lk.X, 0); r == ssa.Value(h.Params[ai]) || lk.X == ssa.Value(h.Params[ai]) {
+											looksUp = true
+										}
+									}
+								}
+							}
+							if looksUp {
+								found = true
+								if hq.Before[ins]&1 != 0 {
+									c.R.Fail(rule3, Fn(g)+":lock", c.Pos(ins), "the overlay is read without the lock", "overlay read under RLock", nil)
+								}
+							}
+						}
+					}
 				}
 			}
 		}
@@ -371,3 +456,20 @@ func (c *Ctx) OverlayRules(prop string) {
 }
 
 func isMakeMap(v ssa.Value) bool { _, ok := v.(*ssa.MakeMap); return ok }
+
+// isMergeHelperCall: v is a static call of a module helper whose single return yields a map made in the helper.
+func isMergeHelperCall(v ssa.Value) bool {
+	call, ok := v.(*ssa.Call)
+	if !ok || call.Call.IsInvoke() {
+		return false
+	}
+	h := call.Call.StaticCallee()
+	if h == nil || !prog.InModule(h) || h.Blocks == nil {
+		return false
+	}
+	rets := an.Returns(h)
+	if len(rets) != 1 || len(rets[0].Results) != 1 {
+		return false
+	}
+	return isMakeMap(an.Result(rets[0], 0))
+}
